@@ -351,7 +351,7 @@ func H_C04_WriteVP9() {
 	down.packetmap.Map(s-1, 0)
 	b, e := v.Bool("B"), v.Bool("E")
 	kf := v.Bool("keyframe")
-	tid, sid := uint8(v.Choice("tid", 4)), uint8(v.Choice("sid", 4)) // concrete: spreads the work over the workers
+	tid, sid := uint8(v.Choice("tid", v.Param("L"))), uint8(v.Choice("sid", v.Param("L"))) // concrete: spreads the work over the workers
 	u := v.Bool("U")
 	z := v.Bool("Z")
 	pkt := zzVP9(s, v.Bool("marker"), b, e, v.Bool("P"), tid, sid, u, v.Bool("D"), kf, z)
